@@ -157,18 +157,21 @@ def rint(ctx, v):
     return sym_rint(v) if ctx.symbolic else float(np.rint(v))
 
 
-def build_space(ctx, layout, prefix="", assume_order=True):
+def build_space(ctx, layout, prefix="", assume_order=True, ds=None, info=None):
     """Build a real ``DesignSpace`` from ``layout`` = [(name, "float"|"integer", kinds or int-bounds), ...].
 
     Float variables: ``kinds`` is a string over B,E,U,L,R (one letter per component); finite bounds are symbolic
     reals with ``l < u`` (B) or ``l == u`` (E).  Integer variables: a list of concrete (lb, ub) integer pairs.
     Symbolically the bounds are written into ``Variable.__dict__`` (pydantic validation needs machine numbers);
     concretely the public ``add_variable`` is used with the model values.
+
+    ``ds`` / ``info``: an existing space (e.g. a ``ParameterSpace``) and its description to which the variables of
+    ``layout`` are appended (C19); by default a new ``DesignSpace`` is created.
     """
     from gemseo.algos.design_space import DesignSpace
 
-    ds = DesignSpace()
-    info = SpaceInfo()
+    ds = DesignSpace() if ds is None else ds
+    info = SpaceInfo() if info is None else info
     for name, typ, spec in layout:
         size = len(spec)
         lbs, ubs, kinds = [], [], []
